@@ -28,7 +28,7 @@ def op_strategy(kind, none_p=True, unique_bulk=False, aliases_plain=True, only=N
     sx = simplex_of(kind, none_p)
     sxb = simplex_of(kind, none_p, unique=unique_bulk, min_size=1 if unique_bulk else 0)
     ct = st.sampled_from(["list", "tuple", "set", "frozenset", "iter"])
-    ct2 = st.sampled_from(["list", "tuple"] if not unique_bulk else ["list", "tuple", "set", "frozenset"])
+    ct2 = st.sampled_from(["list", "tuple", "iter"] if not unique_bulk else ["list", "tuple", "set", "frozenset", "iter"])
     outer = st.sampled_from(["list", "tuple", "gen"])
     mo = st.sampled_from([None, None, None, 0, 1, 2, 3])
 
@@ -68,16 +68,16 @@ def op_strategy(kind, none_p=True, unique_bulk=False, aliases_plain=True, only=N
         (1, "add_weighted_simplices_from", st.tuples(st.just("add_weighted_simplices_from"), wb, st.sampled_from(["weight", "w"]), noweight, mo).map(list)),
         (1, "set_edge_attributes", setattr_modes(e).map(lambda t: ["set_edge_attributes"] + list(t))),
         (6, "remove_simplex_id", st.tuples(st.just("remove_simplex_id"), e).map(list)),
-        (3, "remove_simplex_ids_from", st.tuples(st.just("remove_simplex_ids_from"), st.lists(e, max_size=3)).map(list)),
+        (3, "remove_simplex_ids_from", st.tuples(st.just("remove_simplex_ids_from"), nets.eid_removal_list).map(list)),
         (1, "close", st.just(["close"])),
-        (1, "cleanup", st.tuples(st.just("cleanup"), b, b, b).map(list)),
+        (2, "cleanup", st.tuples(st.just("cleanup"), b, b, b).map(list)),
         (0.5, "clear", st.tuples(st.just("clear"), b).map(list)),
         # deprecated aliases (documented only as "use X instead": drawn with the arguments both share)
         (1, "add_edge", st.tuples(st.just("add_edge"), sx, ct, st.none(), a).map(list)),
         (1, "add_edges_from", bulk(1, "add_edges_from", st.none())),
         (1, "add_edges_from", bulk(4, "add_edges_from", st.none())),
         (1, "remove_edge", st.tuples(st.just("remove_edge"), e).map(list)),
-        (1, "remove_edges_from", st.tuples(st.just("remove_edges_from"), st.lists(e, max_size=2)).map(list)),
+        (1, "remove_edges_from", st.tuples(st.just("remove_edges_from"), nets.eid_removal_list).map(list)),
         (0.5, "add_weighted_edges_from", st.tuples(st.just("add_weighted_edges_from"), wb, st.sampled_from(["weight", "w"]), noweight, mo).map(list)),
     ]
     pool = []
